@@ -90,8 +90,29 @@ static int handle_of(CalWorld &w, long pref, ParamSpec *spec_out)
 // 2: fewer measured cells than in-system unknowns (must fail, EDOM)
 // 1: contains a textbook determining set of fully known standards (must succeed)
 // 0: nothing asserted
+static bool exact_vector(const ParamSpec &p);
+// rectangular (2x1 / 1x2) sessions: only the positive claim is made.  Determining = every standard fully known,
+// three well separated reflections on the port that both drives and detects (port 1) and a through 1-2.
+static int classify_rect(const SessionSpec &ss, const std::vector<ParamSpec> &params)
+{
+    for (const StdSpec &st : ss.stds) for (int pi : st.params) if (!params[(size_t)pi].known() || !exact_vector(params[(size_t)pi])) return 0;
+    double f0 = ss.fv.empty() ? 1e9 : ss.fv[0];
+    std::vector<zc> kept;
+    for (const StdSpec &st : ss.stds) {
+	zc g; bool have = false;
+	if (st.kind == 0 && st.ports[0] == 1) { g = param_truth(params[(size_t)st.params[0]], f0); have = true; }
+	if (st.kind == 1) for (int k = 0; k < 2; ++k) if (st.ports[(size_t)k] == 1) { g = param_truth(params[(size_t)st.params[(size_t)k]], f0); have = true; }
+	if (!have) continue;
+	bool far = true; for (zc y : kept) if (std::abs(g - y) < 0.6) far = false;
+	if (far) kept.push_back(g);
+    }
+    if (kept.size() < 3) return 0;
+    for (const StdSpec &st : ss.stds) if (st.kind == 2) return 1;
+    return 0;
+}
 static int classify(const SessionSpec &ss, const std::vector<ParamSpec> &params)
 {
+    if (ss_rect(ss)) return classify_rect(ss, params);
     int P = ss.P;
     bool ue = is_ue14(ss.type);
     WorldClass cls = world_class_of(ss.type);
@@ -210,7 +231,7 @@ static void check_table(CalWorld &w, const Op &op)
 	}
 	if (!nm || s.name != nm) { c.violate("model", op.k + ":name", strf("index %d should hold \"%s\" but get_name returns %s", s.ci, s.name.c_str(), nm ? nm : "NULL")); return; }
 	if (fnd != s.ci) { c.violate("model", op.k + ":find", strf("find_calibration(\"%s\") = %d, calibration lives at index %d", s.name.c_str(), fnd, s.ci)); return; }
-	if (ty != s.spec.type || r != s.spec.P || cc != s.spec.P || F != s.spec.F) { c.violate("model", op.k + ":info", strf("calibration \"%s\" reports type/rows/columns/frequencies %d/%d/%d/%d, added as %d/%d/%d/%d", s.name.c_str(), ty, r, cc, F, s.spec.type, s.spec.P, s.spec.P, s.spec.F)); return; }
+	if (ty != s.spec.type || r != ss_rows(s.spec) || cc != ss_cols(s.spec) || F != s.spec.F) { c.violate("model", op.k + ":info", strf("calibration \"%s\" reports type/rows/columns/frequencies %d/%d/%d/%d, added as %d/%d/%d/%d", s.name.c_str(), ty, r, cc, F, s.spec.type, s.spec.P, s.spec.P, s.spec.F)); return; }
 	if (lo != s.spec.fv.front() || hi != s.spec.fv.back()) { c.violate("model", op.k + ":info", "fmin/fmax differ from the calibration's frequency vector"); return; }
 	for (int f = 0; f < F; ++f) if (!fvp || fvp[f] != s.spec.fv[f]) { c.violate("model", op.k + ":info", strf("frequency %d of calibration \"%s\" differs", f, s.name.c_str())); return; }
 	zc wz = s.spec.set_z0 ? s.spec.z0 : zc(50, 0);
@@ -244,7 +265,7 @@ static bool solo_apply(Ctx &c, const SessionSpec &ss_in, const std::vector<Param
     }
     for (StdSpec &st : ss.stds) {
 	if (o.flip_variants) { if (st.kind == 2) st.variant = (st.variant + 1) % 3; else if (st.kind != 4) st.variant = 1 - (st.variant ? 1 : 0); }
-	if (o.flip_shape && world_class_of(ss.type) == W8) st.full = !st.full;
+	if (o.flip_shape && world_class_of(ss.type) == W8 && !ss_rect(ss)) st.full = !st.full;
 	st.ab_scale *= o.ab_scale;
     }
     std::vector<std::vector<double>> groups;
@@ -275,7 +296,7 @@ static bool solo_apply(Ctx &c, const SessionSpec &ss_in, const std::vector<Param
 	vnacal_new_t *vnp = nullptr;
 	if (ok) {
 	    LibCall lc(c);
-	    vnp = vnacal_new_alloc(vcp, (vnacal_type_t)s1.type, s1.P, s1.P, s1.F);
+	    vnp = vnacal_new_alloc(vcp, (vnacal_type_t)s1.type, ss_rows(s1), ss_cols(s1), s1.F);
 	    if (vnp) { if (vnacal_new_set_frequency_vector(vnp, s1.fv.data()) != 0) ok = false; if (s1.set_z0 && vnacal_new_set_z0(vnp, toc(s1.z0)) != 0) ok = false; }
 	    else ok = false;
 	    lc.done();
@@ -481,15 +502,20 @@ static void run_op(CalWorld &w, const Op &op, const Plan &plan)
 	if (s.active) return;
 	int type = (int)op.I(1), P = (int)op.I(2), F = (int)op.I(3);
 	bool valid = type >= VNACAL_T8 && type <= VNACAL_E12 && type != _VNACAL_E12_UE14 && P >= 1 && F >= 0;
+	// rectangular: a two-port VNA that drives (T types: detects) on one port only, 1x2 for T, 2x1 for U / E
+	bool rect = op.I(8) != 0 && valid && P == 2 && world_class_of(type) != W16;
+	bool ttype = type == VNACAL_T8 || type == VNACAL_TE10 || type == VNACAL_T16;
+	int R = rect && ttype ? 1 : P, C = rect && !ttype ? 1 : P;
 	vnacal_new_t *vnp;
 	{
-	    LIB_RETRY(c, &op, "vnacal_new_alloc", u_err, vnp == nullptr, vnp = vnacal_new_alloc(w.vcp, (vnacal_type_t)type, P, P, F); CAPTURE_CB);
+	    LIB_RETRY(c, &op, "vnacal_new_alloc", u_err, vnp == nullptr, vnp = vnacal_new_alloc(w.vcp, (vnacal_type_t)type, R, C, F); CAPTURE_CB);
 	    if (usage_failure(vnp == nullptr, "vnacal_new_alloc", true)) { if (!c.violated && valid && F >= 1) c.violate("model", "new:rc", "vnacal_new_alloc refused valid arguments"); return; }
 	}
 	if (!valid) { c.violate("model", "new:rc", strf("vnacal_new_alloc accepted type %d, %dx%d, %d frequencies", type, P, P, F)); { LibCall lc(c); vnacal_new_free(vnp); lc.done(); } return; }
 	s = Session();
 	s.active = true; s.vnp = vnp;
 	s.spec.type = type; s.spec.P = P; s.spec.F = F; s.spec.ab = op.I(4) != 0;
+	if (rect) { s.spec.R = R; s.spec.C = C; c.count(strf("probe.rectangular_session_%dx%d", R, C)); }
 	s.spec.world.P = P; s.spec.world.cls = world_class_of(type); s.spec.world.seed = op.I(5);
 	double lo = op.D(0), hi = op.D(1);
 	for (int q = 0; q < F; ++q) s.spec.fv.push_back(F == 1 ? lo : lo + (hi - lo) * q / (F - 1));
@@ -734,6 +760,7 @@ static void run_op(CalWorld &w, const Op &op, const Plan &plan)
 	c.log(" apply %s ci=%d err=%g", name.c_str(), slot.ci, err);
 	if (!(err <= tol)) { c.violate("model", "apply:truth", strf("calibration \"%s\" (type %d, %d ports, %s form, %zu standards) corrects the device with error %.3g (tolerance %.1g)", name.c_str(), slot.spec.type, slot.spec.P, slot.spec.ab ? "a/b" : "m", slot.spec.stds.size(), err, tol)); return; }
 	c.count(strf("apply.type%d.P%d.%s.ok", slot.spec.type, slot.spec.P, slot.spec.ab ? "ab" : "m"));
+	if (ss_rect(slot.spec)) c.count(strf("probe.rectangular_%dx%d_type%d_%s_corrects_device", ss_rows(slot.spec), ss_cols(slot.spec), slot.spec.type, slot.spec.ab ? "ab" : "m"));
 	c.nontrivial = true;
 	if (w.solo_twin && on_grid && slot.tol_floor == 0) {
 	    // isolation / equivalent descriptions: the same data alone on a fresh vnacal_t
@@ -983,7 +1010,7 @@ static void run_op(CalWorld &w, const Op &op, const Plan &plan)
 	    }
 	    auto bad = [&](const std::string &m2) { c.violate("model", "vload:value", strf("calibration \"%s\" (index %d, fprecision %d, dprecision %d) after save and load: %s", sl.name.c_str(), sl.ci, sf.fprec, sf.dprec, m2.c_str())); };
 	    if (!nm || sl.name != nm) { bad(strf("name at its index is %s", nm ? nm : "NULL")); return; }
-	    if (ty != sl.spec.type || r != sl.spec.P || cc != sl.spec.P || F != sl.spec.F) { bad(strf("type/rows/columns/frequencies %d/%d/%d/%d, saved %d/%d/%d/%d", ty, r, cc, F, sl.spec.type, sl.spec.P, sl.spec.P, sl.spec.F)); return; }
+	    if (ty != sl.spec.type || r != ss_rows(sl.spec) || cc != ss_cols(sl.spec) || F != sl.spec.F) { bad(strf("type/rows/columns/frequencies %d/%d/%d/%d, saved %d/%d/%d/%d", ty, r, cc, F, sl.spec.type, sl.spec.P, sl.spec.P, sl.spec.F)); return; }
 	    CalSlot loaded = sl;
 	    for (int f = 0; f < F; ++f) {
 		if (!fv || fabs(fv[f] - sl.spec.fv[f]) > ftol * fabs(sl.spec.fv[f])) { bad(strf("frequency %d is %s, saved %s", f, fv ? hexd(fv[f]).c_str() : "?", hexd(sl.spec.fv[f]).c_str())); return; }
